@@ -216,6 +216,17 @@ func TestVerifScenReadDeadline(t *testing.T) {
 				} else if r.at < D {
 					s.fail("C18", fmt.Sprintf("read failed with %v before its deadline (at %v)", r.err, r.at))
 				}
+				// a read issued while the deadline is still expired (the message may have arrived after it): it may return
+				// the buffered message or the timeout, but must not consume a message it does not return (seed C18-4)
+				st.lock.RLock()
+				readableNow := st.reassemblyQueue.isReadable()
+				st.lock.RUnlock()
+				if readableNow {
+					buf := make([]byte, 4096)
+					if k, _, err := st.ReadSCTP(buf); err == nil && k == 33 {
+						got++
+					}
+				}
 				// clear the deadline and drain: the message must be there exactly once in total
 				_ = st.SetReadDeadline(time.Time{})
 				for {
